@@ -255,7 +255,13 @@ def _run_case(spec, ctx):
             J = np.asarray(R.Log_SE3_H(H), dtype=float)  # (6,4,4)
             ctx.mon("Log_SE3_H")
             # contract with tangent directions of SE(3) at H: dH = H * [[skew(w), v],[0,0]]; d Log = reference by mp
+            # (reference at the UNROUNDED rotation: within ~1e-8 of a half-turn the scalar part of the quaternion of a float-rounded
+            #  matrix is dominated by the rounding of its entries, the 50-digit model would differentiate noise - found by the thorough tier)
             Hm = mp.matrix(H.tolist())
+            Am_ = mpref.exp_so3(psi.tolist())
+            for i_ in range(3):
+                for j_ in range(3):
+                    Hm[i_, j_] = Am_[i_, j_]
             worst = 0.0
             for k in range(6):
                 xi = [mp.mpf(0)] * 6; xi[k] = mp.mpf(1)
